@@ -57,30 +57,37 @@ def rounded_flows(fn_node):
         for c in ast.iter_child_nodes(n):
             par[id(c)] = n
     bad = []
+    ARITH = (ast.Mult, ast.MatMult, ast.Add, ast.Sub, ast.Div, ast.Pow, ast.FloorDiv, ast.Mod)
+    COMPUTE = ('np.sqrt', 'numpy.sqrt', 'np.power', 'np.diag', 'numpy.diag', 'np.exp', 'np.log', 'sqrtm', 'np.dot',
+               'np.outer', 'np.multiply', 'np.divide', 'np.add', 'np.subtract', 'np.square', 'np.reciprocal')
     for n in walk_no_nested(fn_node):
         if not (isinstance(n, ast.Name) and n.id in rounded and isinstance(n.ctx, ast.Load)):
             continue
-        cur, ok = n, False
-        while id(cur) in par:
+        # the first decisive context on the way up: a comparison makes it a test quantity; arithmetic (or a
+        # numeric function) makes it part of a computed value
+        cur, verdict = n, None
+        while id(cur) in par and verdict is None:
             p = par[id(cur)]
             if isinstance(p, ast.Compare):
-                ok = True               # compared: a test quantity
-                break
-            if isinstance(p, ast.Call) and call_name(p) in ('print', 'len', 'str', 'repr', 'format', 'int', 'bool') \
-                    and p.func is not cur:
-                ok = True
-                break
-            if isinstance(p, (ast.JoinedStr, ast.FormattedValue, ast.Raise, ast.Assert)):
-                ok = True
-                break
-            if isinstance(p, ast.Assign) and len(p.targets) == 1 and isinstance(p.targets[0], ast.Name) and \
+                verdict = 'test'
+            elif isinstance(p, ast.BinOp) and isinstance(p.op, ARITH):
+                verdict = 'compute'
+            elif isinstance(p, ast.UnaryOp) and isinstance(p.op, ast.USub):
+                verdict = 'compute'
+            elif isinstance(p, ast.Call) and p.func is not cur and call_name(p) in COMPUTE:
+                verdict = 'compute'
+            elif isinstance(p, ast.Call) and p.func is not cur and call_name(p) in (
+                    'np.sign', 'np.all', 'np.any', 'all', 'any', 'np.greater_equal', 'np.less_equal', 'np.greater',
+                    'np.less', 'np.isclose', 'np.allclose', 'np.count_nonzero', 'print', 'len', 'str', 'repr', 'bool',
+                    'np.equal', 'np.not_equal', 'min', 'max', 'np.min', 'np.max', 'sorted'):
+                verdict = 'test'
+            elif isinstance(p, ast.Assign) and len(p.targets) == 1 and isinstance(p.targets[0], ast.Name) and \
                     p.targets[0].id in rounded:
-                ok = True               # re-rounding / renaming of the test quantity itself
-                break
-            if isinstance(p, ast.stmt):
+                verdict = 'test'        # re-rounding / renaming of the test quantity itself
+            elif isinstance(p, ast.stmt):
                 break
             cur = p
-        if not ok:
+        if verdict == 'compute':
             bad.append((n.id, n))
     return bad, rounded
 
@@ -112,6 +119,12 @@ def run(repo):
                 if isinstance(n, ast.Call) and call_name(n) == 'sp_trans' and n.args:
                     n_perm += 1
                     ok = ntext(n.args[0]) == 'self'
+                    if not ok:
+                        from .common import expand_locals as _xl36
+                        at = ntext(_xl36(fi.node, n.args[0]))
+                        if not any(k_ in at for k_ in ('.T', 'transpose', 'reshape', 'swapaxes')):
+                            raise AnalysisError('%s: sp_trans(%s): an argument the rule cannot relate to the shape of '
+                                                'self' % (fi.fq, at[:40]))
                     res.functions.add(fi.fq)
                     res.inst({'function': fi.fq, 'permutation': ntext(n)[:40], 'built_from_self': ok}, ok)
                     if not ok:
@@ -126,6 +139,17 @@ def run(repo):
             if isinstance(n, ast.Call) and call_name(n) == 'len' and n.args and isinstance(n.args[0], ast.Subscript) and \
                     isinstance(n.args[0].slice, ast.Constant) and n.args[0].slice.value in (0, -1) and \
                     isinstance(n.args[0].value, ast.Attribute) and n.args[0].value.attr in ('qmat', 'xmat', 'lmi'):
+                pr_ = {}
+                for x_ in ast.walk(fi.node):
+                    for c_ in ast.iter_child_nodes(x_):
+                        pr_[id(c_)] = x_
+                up = pr_.get(id(n))
+                as_stride = (isinstance(up, ast.Slice) and up.step is n) or \
+                    (isinstance(up, ast.BinOp) and isinstance(up.op, (ast.Mult, ast.FloorDiv, ast.Mod, ast.Div))) or \
+                    (isinstance(up, ast.Call) and call_name(up) in ('range', 'np.arange', 'np.reshape') and
+                     len(up.args) == 3 and up.args[2] is n)
+                if not as_stride:
+                    continue            # e.g. the peeled first iteration of a loop over the cones
                 res.functions.add(fi.fq)
                 res.inst({'function': fi.fq, 'representative cone': ntext(n), 'ok': False}, False)
                 res.fail(Finding(RULE, fi.fq, 'first cone as representative: ' + ntext(n),
@@ -147,7 +171,17 @@ def run(repo):
                         sizes.add(n.targets[0].id)
         for n in walk_no_nested(fi.node):
             if isinstance(n, ast.Subscript) and isinstance(n.value, ast.Name) and n.value.id in sizes and \
-                    isinstance(n.slice, ast.Constant) and n.slice.value in (0, -1) and isinstance(n.ctx, ast.Load):
+                    isinstance(n.slice, ast.Constant) and n.slice.value == 0 and isinstance(n.ctx, ast.Load):
+                pr_ = {}
+                for x_ in ast.walk(fi.node):
+                    for c_ in ast.iter_child_nodes(x_):
+                        pr_[id(c_)] = x_
+                up = pr_.get(id(n))
+                if not (isinstance(up, ast.BinOp) and isinstance(up.op, (ast.Sub, ast.Add, ast.Mult, ast.FloorDiv, ast.Mod))
+                        and any(isinstance(y_, ast.Name) and y_.id in sizes or
+                                (isinstance(y_, ast.Call) and 'cumsum' in call_name(y_))
+                                for y_ in ast.walk(up.left if up.right is n else up.right))):
+                    continue            # combined with nothing that ranges over all cones
                 res.functions.add(fi.fq)
                 res.inst({'function': fi.fq, 'representative cone size': ntext(n), 'ok': False}, False)
                 res.fail(Finding(RULE, fi.fq, 'first cone as representative: ' + ntext(n),
@@ -207,8 +241,8 @@ def _sticky_flags(repo, res):
                         for a in inner:
                             top_level = any(a is s_ for s_ in lp.body)
                             from_item = any(isinstance(x, ast.Name) and x.id in loopvars for x in ast.walk(a.value))
-                            if top_level and from_item and not (isinstance(a.value, ast.BoolOp) and any(
-                                    isinstance(x, ast.Name) and x.id == flag for x in ast.walk(a.value))):
+                            if top_level and from_item and not any(
+                                    isinstance(x, ast.Name) and x.id == flag for x in ast.walk(a.value)):
                                 bad = a
                         ok = bad is None
                         res.functions.add(fi.fq)
